@@ -145,8 +145,8 @@ class AsyncTCPGateway(BaseAsyncGateway, BaseTCPGateway):
             super().check_connection()
         except OSError as exc:
             _LOGGER.error(exc)
+            # The protocol will reconnect when the connection is lost.
             self.tasks.transport.protocol.transport.close()
-            self.tasks.transport.protocol.conn_lost_callback()
             return
 
         loop = asyncio.get_running_loop()
@@ -215,8 +215,13 @@ class AsyncTCPMySensorsProtocol(BaseMySensorsProtocol, asyncio.Protocol):
         if self.gateway.cancel_check_conn:
             self.gateway.cancel_check_conn()
             self.gateway.cancel_check_conn = None
+        if self.gateway.on_conn_lost is not None:
+            self.gateway.on_conn_lost(self.gateway, exc)
         if exc:
             _LOGGER.error(exc)
+        # Reconnect also if the peer or the connection check closed the
+        # connection without error, but not if the user disconnected.
+        if exc or self.gateway.tasks.transport.protocol is self:
             self.conn_lost_callback()
         self.transport = None
 
